@@ -447,7 +447,10 @@ convert_drcs(cache_page *vtp, uint8_t *raw)
 			break;
 
 		case DRCS_MODE_6_5_4:
-			for (j = 0; j < 20; p += 4, d += 6, j++) {
+			/* One PTU (20 bytes): 5 rows of 6 pixels in 4 bit
+			   planes, scaled to the 12 x 10 character cell
+			   (60 bytes) like the other modes. */
+			for (j = 0; j < 5; p += 4, d += 12, j++) {
 				q = expand[p[0] & 0x3F]
 				  + expand[p[1] & 0x3F] * 2
 				  + expand[p[2] & 0x3F] * 4
@@ -458,6 +461,7 @@ convert_drcs(cache_page *vtp, uint8_t *raw)
 				d[3] = ((q >> 12) & 15) * 0x11;
 				d[4] = ((q >> 16) & 15) * 0x11;
 				d[5] = (q >> 20) * 0x11;
+				memcpy (d + 6, d, 6);
 			}
 			break;
 
